@@ -5,7 +5,7 @@
    of threads, any calls, handlers/tasks that return or panic) and an ARBITRARY schedule of
    atomic actions (including timer expiries of TimeoutLimit and task goroutines of
    TaskRunner as pseudo-threads).  "In ...exec n scripts sched" = at every step of every
-   interleaving.  n = 0 is allowed (nothing is ever admitted), so n >= 1 is not needed. *)
+   interleaving.  n = 0 is allowed (nothing is ever let in), so n >= 1 is not needed. *)
 From Coq Require Import List ZArith Bool Arith.
 From GZ Require Import Lib.Sched C05.Model C05.Proofs.
 Import ListNotations.
@@ -134,7 +134,7 @@ Example ex_limit :
 Proof. vm_compute. reflexivity. Qed.
 
 (* MaxConns n = 1: the first handler panics inside the body, the second request is refused
-   while it is inside, a third one is admitted afterwards: the permit came back *)
+   while it is inside, a third one gets in afterwards: the permit came back *)
 Example ex_maxconns :
   let s := lexec 1 [[LReq true]; [LReq false]; [LReq false]] [0; 1; 0; 2; 2] in
   (map lres (lthreads s), lc s) = ([[3]; [0]; [1]]%Z, 0).
